@@ -15,6 +15,9 @@
 #include "msa_op.h"
 #include "aln_param.h"
 #include "alphabet.h"
+#ifdef _OPENMP
+#include <omp.h>
+#endif
 
 long kv_live_blocks(void);
 long kv_live_bytes(void);
@@ -240,6 +243,17 @@ int main(int argc, char **argv)
                         for (int k = 0; k < n; k++) free(q[k]);
                         free(q);
                         printf("{\"op\":\"churn\",\"n\":%d}\n", opn);
+                } else if (!strcmp(op, "ompset")) {
+                        /* the embedding application uses OpenMP itself and changes the process-wide thread setting between kalign calls */
+                        int n = atoi(tok(&p));
+                        long acc = 0;
+#ifdef _OPENMP
+                        omp_set_num_threads(n);
+#pragma omp parallel reduction(+:acc)
+                        { acc += 1; }
+#endif
+                        printf("{\"op\":\"ompset\",\"n\":%d,\"requested\":%d}\n", opn, n);
+                        (void)acc;
                 } else if (!strcmp(op, "echo")) {
                         char *t = tok(&p);
                         printf("{\"op\":\"echo\",\"n\":%d,\"text\":", opn); jstr(t, -1); printf("}\n");
